@@ -13,17 +13,17 @@
 /// The binary crate's modules, compiled in UNCHANGED from /repo (mirrors `main.rs`'s `mod` list
 /// for the modules that do not depend on items defined in `main.rs` itself).
 pub mod cli {
-    #[path = "/verif/.build/repo/src/bin/copia/plan.rs"]
+    #[path = "../../../.build/repo/src/bin/copia/plan.rs"]
     pub mod plan;
-    #[path = "/verif/.build/repo/src/bin/copia/reconcile.rs"]
+    #[path = "../../../.build/repo/src/bin/copia/reconcile.rs"]
     pub mod reconcile;
-    #[path = "/verif/.build/repo/src/bin/copia/transfer.rs"]
+    #[path = "../../../.build/repo/src/bin/copia/transfer.rs"]
     pub mod transfer;
-    #[path = "/verif/.build/repo/src/bin/copia/meta.rs"]
+    #[path = "../../../.build/repo/src/bin/copia/meta.rs"]
     pub mod meta;
-    #[path = "/verif/.build/repo/src/bin/copia/wire.rs"]
+    #[path = "../../../.build/repo/src/bin/copia/wire.rs"]
     pub mod wire;
-    #[path = "/verif/.build/repo/src/bin/copia/archive.rs"]
+    #[path = "../../../.build/repo/src/bin/copia/archive.rs"]
     pub mod archive;
 }
 
